@@ -81,6 +81,7 @@ func ConnectSession(ctx context.Context, cluster *Cluster, config SessionConfig)
 		return nil, err
 	}
 
+	verifPoint("session-select")
 	select {
 	case <-ctx.Done():
 		return nil, ctx.Err()
